@@ -23,7 +23,7 @@ RULE = (
     "the spec matrix allows; name table 0..7 refused on both sides; each table 4097 / 2^31 refused on read; versions 1..5 "
     "on read (3+ refused, 1 and 2 accepted); (3) exhaustive 8 logical types x {flat, grouped} parser x strict {T,F} x both "
     "integrations (flat also through the pre-read path frames=/options=): strict flat parsers accept exactly FLAT_TRIPLES / FLAT_QUADS, strict grouped parsers exactly the five "
-    "grouped types; without strict the logical type never changes the result (metamorphic, crafted streams differing only "
+    "grouped types; without strict the logical type never changes the result - for the grouped parsers incl. the number of containers - (metamorphic, crafted one-frame and multi-frame streams with leading / interleaved / trailing empty frames, differing only "
     "in that field). non-trivial = header with >=3 non-default fields, or a point on the accept/reject border; distinct by "
     "case hash."
 )
@@ -170,20 +170,28 @@ def body_roundtrip(case, acc):
 
 
 # ----------------------------------------------------------------------- tables
-def crafted(phys_num, logical, sizes=(8, 4, 4), version=1, n_stmts=1, phys_rows=None):
-    """A stream with the given header, built with my own codec (E's row model, no validation)."""
+def crafted(phys_num, logical, sizes=(8, 4, 4), version=1, n_stmts=1, phys_rows=None, shape="one_frame"):
+    """A stream with the given header, built with my own codec (E's row model, no validation). shape 'multi': two empty
+    frames in front, the options row in a frame of its own, every statement in its own frame, empty frames in between
+    and at the end."""
     rows = [("options", {"physical_type": phys_num, "logical_type": logical, "max_name_table_size": sizes[0],
                          "max_prefix_table_size": sizes[1], "max_datatype_table_size": sizes[2], "version": version})]
     kind = phys_rows if phys_rows is not None else phys_num
     stmt = {"s": ("bnode", "a"), "p": ("bnode", "b"), "o": ("lit", "c", None)}
+    groups = []
     for _ in range(n_stmts):
         if kind == 1:
-            rows.append(("triple", stmt))
+            groups.append([("triple", stmt)])
         elif kind == 2:
-            rows.append(("quad", {**stmt, "g": ("default",)}))
+            groups.append([("quad", {**stmt, "g": ("default",)})])
         elif kind == 3:
-            rows += [("graph_start", ("default",)), ("triple", stmt), ("graph_end",)]
-    return wire.enc_stream([{"rows": rows, "metadata": []}], True)
+            groups.append([("graph_start", ("default",)), ("triple", stmt), ("graph_end",)])
+    if shape == "one_frame":
+        return wire.enc_stream([{"rows": rows + [r for g in groups for r in g], "metadata": []}], True)
+    frames = [{"rows": [], "metadata": []}, {"rows": [], "metadata": []}, {"rows": rows, "metadata": []}]
+    for g in groups:
+        frames += [{"rows": g, "metadata": []}, {"rows": [], "metadata": []}]
+    return wire.enc_stream(frames, True)
 
 
 def table_cases():
@@ -207,8 +215,9 @@ def table_cases():
                 for phys in (1, 2, 3):
                     for logical in pyj.LOGICALS:
                         if logical in (TRIPLE_LOGICALS if phys == 1 else QUAD_LOGICALS):
-                            yield {"kind": "strict", "integration": integ, "parser": parser, "strict": strict,
-                                   "phys": phys, "logical": logical}
+                            for shape in ("one_frame", "multi"):
+                                yield {"kind": "strict", "integration": integ, "parser": parser, "strict": strict,
+                                       "phys": phys, "logical": logical, "shape": shape}
 
 
 def parse_any(data, integ="generic", parser="flat", strict=False):
@@ -312,8 +321,8 @@ def body_table(case, acc):
             if r != (case["version"] <= 2):
                 v = Violation("C13:version-gate", f"{integ}: stream declaring version {case['version']} accepted={r}", case)
     elif k == "strict":
-        data = crafted(case["phys"], case["logical"], n_stmts=2)
-        base = crafted(case["phys"], 0, n_stmts=2)
+        data = crafted(case["phys"], case["logical"], n_stmts=2, shape=case.get("shape", "one_frame"))
+        base = crafted(case["phys"], 0, n_stmts=2, shape=case.get("shape", "one_frame"))
         try:
             got = parse_any(data, case["integration"], case["parser"], case["strict"])
             accepted = True
